@@ -567,3 +567,19 @@ V('mt3-misspelt', ['C11'], 'yalafi/packages/amsmath.py', "        EquEnv(parms, 
 V('ab5-paragraph-arg', ['C05'], P, "        if type(tok) is defs.ParagraphToken:\n            return scanner.Buffer([defs.VoidToken(tok.pos)])\n        if end == '}' and tok.txt != '{':",
   "        if end == '}' and tok.txt != '{':", 'AB5')
 V('rp1-leading-space', ['C05', 'C13'], U, "        r = ' '.join(lin[i+1:])\n", "        r = ' '.join(lin[i+1:])\n        if not r:\n            t = r'\\s*' + t\n", 'RP1')
+V('pd9-shift-start', ['C01', 'C04'], P, "        delimiters = []\n        pos = start\n", "        delimiters = []\n        pos = start + len(mac.name)\n", 'PD9')
+V('sb1-keep-pinned', ['C04', 'C09'], P, "                tok = copy.copy(tok)\n                tok.pos = cur_pos\n                tok.pos_fix = True\n                out.append(tok)",
+  "                if not tok.pos_fix:\n                    tok = copy.copy(tok)\n                    tok.pos = cur_pos\n                    tok.pos_fix = True\n                out.append(tok)", 'SB1')
+V('nl1-star', ['C06'], P, "        tok = buf.cur()\n        if tok and tok.txt == '[':\n            self.arg_buffer(buf, tok.pos, end=']')",
+  "        tok = buf.cur()\n        if tok and tok.txt == '*':\n            tok = buf.next()\n        if tok and tok.txt == '[':\n            self.arg_buffer(buf, tok.pos, end=']')", 'NL1')
+V('ln1-replacements', ['C13'], T2, "    lines = f.readlines()\n    f.close()\n    return lines", "    lines = f.read().splitlines()\n    f.close()\n    return lines", 'LN1')
+V('ml9-first-char', ['C14'], U, "    pos = [incl.pos[start]] * len(repl[0])", "    pos = [incl.pos[0]] * len(repl[0])", 'ML9')
+V('en2-file-encoding', ['C15'], GX, "            cont_offset = len(cont_text[:cont_offset].encode())", "            cont_offset = len(cont_text[:cont_offset].encode(cmdline.encoding))", 'EN2')
+V('ps6-context', ['C16', 'C17'], GH, "    hdata = []\n    for m in matches:", "    if cmdline.context < 0 or cmdline.context > len(tex):\n        cmdline.context = len(tex)\n    hdata = []\n    for m in matches:", 'PS6')
+V('th7-no-length-test', ['C16'], GH, "        if h.end == h.beg + 1 and tex[h.beg] == '\\\\':", "        if tex[h.beg] == '\\\\':", 'TH7')
+V('tj4-unbounded', ['C15'], GT, "        beg = max(0, min(beg, len(txt)))\n        length = max(0, min(length, len(txt) - beg))\n", "", 'TJ4')
+V('tj4-neutral-order', ['C15'], GT, "        length = max(0, min(length, len(txt) - beg))\n", "        length = min(max(length, 0), len(txt) - beg)\n        length = max(0, length)\n", [])
+V('tj5-raw-str', ['C15'], SH, "        ret = ret.encode('utf-8', 'replace').decode('utf-8')\n", "        pass\n", 'TJ5')
+V('th8-attribute-br', ['C15', 'C16'], GH, "        return protect_html(s).replace('<br>\\n', '\\n')", "        return protect_html(s)", 'TH8')
+V('ls1m-sticky-path', ['C13', 'C12', 'C01'], T2, "    if opts.repl and main_lang in ml:\n        for part in ml[main_lang]:\n            part[0], part[1] = utils.replace_phrases(part[0], part[1],\n                                                        opts.repl)\n    for lang in ml:\n        for part in ml[lang]:\n            part[1]= list(n + 1 for n in part[1])",
+  "    for lang in ml:\n        for part in ml[lang]:\n            txt, pos = part\n            if opts.repl and lang == main_lang:\n                txt, pos = utils.replace_phrases(txt, pos, opts.repl)\n            part[0] = txt\n            part[1] = list(n + 1 for n in part[1])", 'LS1m')
